@@ -215,7 +215,7 @@ func c12Run(c *Ctx, ecs bool) {
 		mode = "ecs-on"
 	}
 	ups := []string{"udp", "pipe", "dohs", "doq"}
-	b, err := NewBed(c, mode, BedOpts{Env: map[string]string{"VERIF_POINTS": "prefetch.start=sleep(2ms,100.0%)"}, Upstreams: append([]string{"tcp"}, ups...), ECS: ecs, MemSize: 8 << 20, ClientAddrHeader: "X-Client-Addr", KeepRaw: true})
+	b, err := NewBed(c, mode, BedOpts{Env: map[string]string{"VERIF_POINTS": "prefetch.start=sleep(2ms,100.0%)"}, Listeners: append(append([]string{}, allListeners...), "unixtcp", "unixgnet"), Upstreams: append([]string{"tcp"}, ups...), ECS: ecs, MemSize: 8 << 20, ClientAddrHeader: "X-Client-Addr", KeepRaw: true})
 	if err != nil {
 		c.startFailure(err, mode)
 		return
@@ -372,6 +372,7 @@ func c12Run(c *Ctx, ecs bool) {
 	<-refreshDone
 	if b.Proxy.Alive() && c.ViolationCount() < 10 {
 		c12Failing(c, b, mode)
+		c12Unix(c, b, ecs, mode)
 	}
 	// response sizes in 1-byte steps around the client's UDP size: the OPT record must survive truncation
 	if ecs && b.Proxy.Alive() && c.ViolationCount() < 10 {
@@ -539,7 +540,6 @@ func c12Failing(c *Ctx, b *Bed, mode string) {
 	})
 }
 
-
 // c12OptTTL returns the TTL field of the first OPT record of a message (0 if none).
 func c12OptTTL(wire []byte) uint32 {
 	m := new(dns.Msg)
@@ -552,4 +552,38 @@ func c12OptTTL(wire []byte) uint32 {
 		}
 	}
 	return 0
+}
+
+
+// c12Unix: clients behind a unix-socket listener have no address the proxy could know: their
+// upstream queries never carry a client-subnet option, ECS on or off.
+func c12Unix(c *Ctx, b *Bed, ecs bool, mode string) {
+	for i := 0; i < c.N(12, 80); i++ {
+		r := gen.New(c.Seed, "c12unix/"+mode, i)
+		listener := []string{"unixtcp", "unixgnet"}[i%2]
+		name := fmt.Sprintf("ok-n2-ttl300-ux%dx%d.pipe.test.", i, c.Seed)
+		wire, qopt := c12BuildQuery(r, name, dns.TypeA, uint16(i))
+		probe := c12Probe{Listener: listener, Name: name, QueryOpt: qopt, QueryHex: hex.EncodeToString(wire)}
+		x := b.Exchange(listener, wire, xOpts{Timeout: 5 * time.Second})
+		c.Ev.Eval(1)
+		if x.Err != nil || len(x.Resp) == 0 {
+			c.Inconclusive(fmt.Sprintf("unix listener %s: no response: %v", listener, x.Err))
+			continue
+		}
+		seen := false
+		for _, ql := range b.Up["pipe"].Log() {
+			if !strings.EqualFold(ql.Name, name) {
+				continue
+			}
+			seen = true
+			if raw := c12RawECS(ql.Raw); len(raw) > 0 {
+				c.Violation("ecs-when-not-allowed:"+mode+":unix-socket-client", fmt.Sprintf("a query from a client behind the %s listener on an abstract unix socket (no client address) reached the upstream with client-subnet option %x", strings.TrimPrefix(listener, "unix"), raw[0]), probe)
+				return
+			}
+		}
+		if seen {
+			c.Ev.Distinct(mode, "unix-socket-client", listener, qopt != "none")
+			c.Ev.Count(mode+"_unix_socket_queries_checked", 1)
+		}
+	}
 }
